@@ -69,6 +69,11 @@ CLAIMED = {
          'REDUCED SCOPE (inductive step): real SelectorBase.wait / PollSelector.wait_readable / run() loop body / _recv against an abstract transport with two symbolic counters '
          '(kernel bytes k, TLS-decrypted bytes q) and a symbolic record size: an iteration blocks only when k=q=0, otherwise consumes >=1 byte in zero virtual time, count in range, '
          'no byte lost; induction on iterations gives draining of any burst. Kernel selectors, real ssl buffering and loopback runs are outside (not encodable).'),
+ 'C06': ('model_checking', '3 (C06), 6',
+         'REDUCED SCOPE: DEFLATE itself is not encoded (zlib C code; its losslessness is trusted). zlib is replaced by an executable abstract streaming codec whose output carries explicit '
+         '(deflater generation, message sequence, window bits) tags; a reference RFC 7692 peer applies the NEGOTIATED parameters (symbolic window digits, spellings, both takeover flags '
+         'as solver variables) over histories of sends/receives with solver-chosen fragmentation: invalid parameters => Rejected; peer inflater restores every client message in wire order; '
+         'client delivers every peer message; damaged stream => ProtocolError, never wrong content; RSV1 only when negotiated and requested. Replay uses the real zlib on both sides.'),
 }
 
 REPLAY = './vcheck {prop} --replay {{path}}'
